@@ -71,6 +71,16 @@ var scenarios = []scenario{
 		n.Block(nil, nil)
 		return n
 	}},
+	{"validator-changes-public-key-in-payout-block", func() *Node {
+		n := nodeStd(4)
+		for (n.Height+1)%stakePeriod != 0 {
+			n.Block(nil, nil)
+		}
+		n.Block([][]byte{n.MkTx(n.Accts[1], transaction.TypeEditCandidatePublicKey, transaction.EditCandidatePublicKeyData{PubKey: n.Vals[1].Pub, NewPubKey: mkVal(4242).Pub}, 0, 0, 1, nil)}, nil)
+		n.Block(nil, nil)
+		n.Block(nil, nil)
+		return n
+	}},
 	{"failed-tx-fee-from-dust-balance-through-pool", func() *Node {
 		n := nodeStd(4)
 		a, b := n.Accts[0], n.Accts[1]
